@@ -286,63 +286,70 @@ var c04ArityAllowed = map[string]string{
 	"excellent/functions.Object[min=0]/args[i]":      "pairs[i+1] inside `for i := 0; i < len(pairs); i += 2` after the dominating `len(pairs)%2 != 0` rejection: i+1 < len(pairs)",
 }
 
-// lenLowerBound: the lower bound on len(slice) implied by the conditions controlling block b.
+// lenLowerBound: the lower bound on len(slice) that holds on every path reaching block b (a forward range analysis
+// over the branch edges; it handles disjunctive guards such as `if len(args) != 1 && len(args) != 3 { return }`).
+var lenLBCache = map[[2]any]map[*ssa.BasicBlock]int64{}
+
 func lenLowerBound(b *ssa.BasicBlock, slice ssa.Value) int64 {
-	lb := int64(0)
-	isLen := func(v ssa.Value) bool {
-		c, ok := v.(*ssa.Call)
-		if !ok {
-			return false
+	fn := b.Parent()
+	key := [2]any{fn, slice}
+	m, ok := lenLBCache[key]
+	if !ok {
+		isLen := func(v ssa.Value) bool {
+			c, ok := v.(*ssa.Call)
+			if !ok {
+				return false
+			}
+			bi, ok := c.Call.Value.(*ssa.Builtin)
+			return ok && bi.Name() == "len" && c.Call.Args[0] == slice
 		}
-		bi, ok := c.Call.Value.(*ssa.Builtin)
-		return ok && bi.Name() == "len" && c.Call.Args[0] == slice
+		m = core.ForwardLowerBound(fn, 0, func(cond ssa.Value, taken bool) (int64, bool) {
+			bo, ok := cond.(*ssa.BinOp)
+			if !ok {
+				return 0, false
+			}
+			op := bo.Op
+			var c int64
+			if isLen(bo.X) {
+				n, isC := core.ConstInt(bo.Y)
+				if !isC {
+					return 0, false
+				}
+				c = n
+			} else if isLen(bo.Y) {
+				n, isC := core.ConstInt(bo.X)
+				if !isC {
+					return 0, false
+				}
+				c = n
+				switch op {
+				case token.LSS:
+					op = token.GTR
+				case token.GTR:
+					op = token.LSS
+				case token.LEQ:
+					op = token.GEQ
+				case token.GEQ:
+					op = token.LEQ
+				}
+			} else {
+				return 0, false
+			}
+			switch {
+			case op == token.EQL && taken, op == token.NEQ && !taken:
+				return c, true
+			case op == token.GTR && taken, op == token.LEQ && !taken:
+				return c + 1, true
+			case op == token.GEQ && taken, op == token.LSS && !taken:
+				return c, true
+			case op == token.NEQ && taken && c == 0, op == token.EQL && !taken && c == 0:
+				return 1, true
+			}
+			return 0, false
+		})
+		lenLBCache[key] = m
 	}
-	for _, ce := range core.ControllingConds(b) {
-		bo, ok := ce.Cond.(*ssa.BinOp)
-		if !ok {
-			continue
-		}
-		op := bo.Op
-		var c int64
-		if isLen(bo.X) {
-			n, isC := core.ConstInt(bo.Y)
-			if !isC {
-				continue
-			}
-			c = n
-		} else if isLen(bo.Y) {
-			n, isC := core.ConstInt(bo.X)
-			if !isC {
-				continue
-			}
-			c = n
-			switch op {
-			case token.LSS:
-				op = token.GTR
-			case token.GTR:
-				op = token.LSS
-			case token.LEQ:
-				op = token.GEQ
-			case token.GEQ:
-				op = token.LEQ
-			}
-		} else {
-			continue
-		}
-		var implied int64 = -1
-		switch {
-		case op == token.EQL && ce.Taken, op == token.NEQ && !ce.Taken:
-			implied = c
-		case op == token.GTR && ce.Taken, op == token.LEQ && !ce.Taken:
-			implied = c + 1
-		case op == token.GEQ && ce.Taken, op == token.LSS && !ce.Taken:
-			implied = c
-		}
-		if implied > lb {
-			lb = implied
-		}
-	}
-	return lb
+	return m[b]
 }
 
 // checkArgsIndexing verifies every constant index / slice expression on the slice parameter `args` of fn given
